@@ -369,6 +369,44 @@ def gen_group_swap_rules(rng, letters, cellvals):
     return lines + rng.sample(pool, rng.range(3, 9))
 
 
+def gen_exotic_rules(r, letters):
+    """main-pass opcodes outside the modelled fragment whose handlers move the position themselves (rewind to the word
+    start, translate a whole string in computer braille, skip repetitions ...): any of them can fail to advance"""
+    L = [chr(c) for c in letters if c != 32]
+    w = lambda n: "".join(r.choice(L) for _ in range(n))
+    out = ["punctuation - 36", "punctuation . 256", "digit 1 2", "digit 2 23"]
+    d1 = lambda: dots_text(r.range(1, 63))
+    pool = [
+        "seqdelimiter -", "seqbeforechars -", "seqafterchars -", "nocont %s" % w(r.range(1, 3)), "nocont %s" % w(3),
+        "compbrl %s" % w(r.range(1, 2)), "compbrl \\s%s" % w(1), "compbrl %s\\s" % w(1), "compbrl -%s" % w(1), "literal %s" % w(2),
+        "comp6 %s 1-2" % w(1), "repeated -- 36", "repeated %s 14" % (w(1) * 2), "repeated \\s\\s 0",
+        "replace %s %s" % (w(2), w(1)), "replace %s" % w(1), "joinword %s 12" % w(1), "largesign %s 123" % w(2), "contraction %s" % w(2),
+        "hyphen - 36", "begnum 1 3", "midnum - 36", "endnum 1 3", "decpoint . 46", "numsign 3456", "capsletter 6", "lowword %s 15" % w(1),
+        "repword -- 36", "rependword -- 36,36", "syllable %s 1-2" % w(2), "exactdots @12", "noletsign %s" % w(1), "letsign 56",
+        "partword %s 13" % w(2), "always %s 1-1" % w(1), "begword %s 13" % w(2), "always -%s 36" % w(1),
+    ]
+    # constructs whose handlers keep state across iterations: numeric mode, repeated words, chained base characters,
+    # searches inside a pass test, nocont / compbrl strings that begin or end with a blank
+    groups = [
+        ["nocont \\s%s" % w(1)], ["nocont %s\\s" % w(1)], ["nocont \\s%s\\s" % w(2)],
+        ["seqdelimiter -", "nocont %s" % w(r.range(1, 2)), "always %s 1-1" % w(2)], ["seqdelimiter -", "nocont .%s" % w(1)],
+        ["nonumsign 56", "nocontractsign 56", "numericmodechars .-", "seqdelimiter -", "nocont %s" % w(2), "numsign 3456"],
+        ["numericnocontchars %s" % w(2), "midendnumericmodechars -", "nonumsign 56", "numsign 3456", "nocont %s" % w(1), "seqdelimiter -"],
+        ["repword - 36-36", 'noback context []"-" ?'], ["repword -- 36", 'noback context "-"[] ?', 'noback context []"%s" ?' % w(1)],
+        ["rependword - 36,36-36", 'noback context []"-" *'],
+        ["noback pass2 @%s/~ @%s" % (d1(), d1())], ["noback pass2 @%s/` @%s" % (d1(), d1())], ["noback pass2 @%s/@%s~ ?" % (d1(), d1())],
+        ['noback correct "%s"/"%s"~ ?' % (w(1), w(1))], ["noback pass3 @%s/@%s/@%s ?" % (d1(), d1(), d1())], ["noback pass2 @%s[/@%s] *" % (d1(), d1())],
+        ["lowercase z 1356", "lowercase y 13456", "attribute acute z", "attribute grave y", "base uppercase %s %s" % (L[0].upper(), L[0]),
+         "base acute \\x00e1 %s" % L[0], "base grave \\x00e0 \\x00e1", "capsletter 6"],
+        ["lowercase z 1356", "attribute acute z", "base uppercase %s %s" % (L[0].upper(), L[0]), "base acute \\x00c1 %s" % L[0].upper(), "capsletter 6", "begcapsword 6-6"],
+    ]
+    extra = []
+    for g in r.sample(groups, r.range(0, 3)):
+        extra += g
+    return out + r.sample(pool, r.range(2, 6)) + extra
+
+
+
 def gen_emphasis_table(rng):
     """a small table with capital letters (base rules), capital and emphasis indicators in random combinations (letter, word,
     phrase with before/after end, length limits, mode characters), a few contractions and numbers; for the memory, length and
